@@ -4,59 +4,87 @@ under `_finish_apply`.
 -/
 import DafRel.Lemmas.FinishApply
 import DafRel.Lemmas.Build
+import DafRel.Lemmas.Conform
 import DafRel.Spec.Select
 
 namespace DafRel
 
-theorem Good.props {σ : Leaves} {t : Rel} (h : Good σ t) : t.WF ∧ t.Truthful σ ∧ t.engine.kind = .sql := by
+variable {I : NodeInv}
+
+theorem Good.props {σ : Leaves} {t : Rel} (h : Good I σ t) : t.WF ∧ t.Truthful σ ∧ t.engine.kind = .sql := by
   induction h with
-  | atom r _ hw ht he => exact ⟨hw, ht, he⟩
+  | atom r _ hw ht he _ => exact ⟨hw, ht, he⟩
   | unary op t c _ hw ih => exact ⟨hw, ih.2.1, ih.2.2⟩
   | chain l r c _ _ hw ihl ihr => exact ⟨hw, ⟨ihl.2.1, ihr.2.1⟩, ihl.2.2⟩
   | join j l r c _ _ hw _ _ ihl ihr => exact ⟨hw, ⟨ihl.2.1, ihr.2.1⟩, ihl.2.2⟩
-  | sel S hS he _ _ _ => exact ⟨hS.wf, hS.truthful, he⟩
+  | sel S hS he _ _ _ _ => exact ⟨hS.wf, hS.truthful, he⟩
 
-theorem Good.wf {σ : Leaves} {t : Rel} (h : Good σ t) : t.WF := h.props.1
-theorem Good.truthful {σ : Leaves} {t : Rel} (h : Good σ t) : t.Truthful σ := h.props.2.1
-theorem Good.sql {σ : Leaves} {t : Rel} (h : Good σ t) : t.engine.kind = .sql := h.props.2.2
+theorem Good.wf {σ : Leaves} {t : Rel} (h : Good I σ t) : t.WF := h.props.1
+theorem Good.truthful {σ : Leaves} {t : Rel} (h : Good I σ t) : t.Truthful σ := h.props.2.1
+theorem Good.sql {σ : Leaves} {t : Rel} (h : Good I σ t) : t.engine.kind = .sql := h.props.2.2
 
-theorem Good.selInv {σ : Leaves} {S : Rel} (h : Good σ S) (hs : S.isSelect = true) :
-    SelOK σ S ∧ Good σ S.skipTo := by
+theorem Good.selInv {σ : Leaves} {S : Rel} (h : Good I σ S) (hs : S.isSelect = true) :
+    SelOK σ S ∧ Good I σ S.skipTo := by
   cases h with
-  | atom r ha _ _ _ => cases S <;> simp_all [Rel.isAtom, Rel.isSelect]
+  | atom r ha _ _ _ _ => cases S <;> simp_all [Rel.isAtom, Rel.isSelect]
   | unary => simp [Rel.isSelect] at hs
   | chain => simp [Rel.isSelect] at hs
   | join => simp [Rel.isSelect] at hs
-  | sel S hS _ _ gk => exact ⟨hS, gk⟩
+  | sel S hS _ _ _ gk => exact ⟨hS, gk⟩
 
-theorem Good.unaryInv {σ : Leaves} {op : UOp} {t : Rel} {c : Cols} (h : Good σ (.unary op t c)) :
-    Good σ t ∧ (Rel.unary op t c).WF := by
+theorem Good.unaryInv {σ : Leaves} {op : UOp} {t : Rel} {c : Cols} (h : Good I σ (.unary op t c)) :
+    Good I σ t ∧ (Rel.unary op t c).WF := by
   cases h with
-  | atom r ha _ _ _ => simp [Rel.isAtom] at ha
+  | atom r ha _ _ _ _ => simp [Rel.isAtom] at ha
   | unary _ _ _ g w => exact ⟨g, w⟩
-  | sel S hS _ _ _ => have := hS.isSel; simp [Rel.isSelect] at this
+  | sel S hS _ _ _ _ => have := hS.isSel; simp [Rel.isSelect] at this
 
-theorem Good.chainInv {σ : Leaves} {l r : Rel} {c : Cols} (h : Good σ (.binary .chain l r c)) :
-    Good σ l ∧ Good σ r := by
+theorem Good.chainInv {σ : Leaves} {l r : Rel} {c : Cols} (h : Good I σ (.binary .chain l r c)) :
+    Good I σ l ∧ Good I σ r := by
   cases h with
-  | atom r ha _ _ _ => simp [Rel.isAtom] at ha
+  | atom r ha _ _ _ _ => simp [Rel.isAtom] at ha
   | chain _ _ _ g1 g2 _ => exact ⟨g1, g2⟩
-  | sel S hS _ _ _ => have := hS.isSel; simp [Rel.isSelect] at this
+  | sel S hS _ _ _ _ => have := hS.isSel; simp [Rel.isSelect] at this
 
 /-- A coherent Select over a Good skip target of compilable shape is Good. -/
 theorem Good.ofSel {σ : Leaves} {S : Rel} (ok : SelOK σ S) (hsh : S.skipTo.compOK true = true)
-    (gk : Good σ S.skipTo) : Good σ S :=
-  Good.sel S ok (by rw [ok.engine]; exact gk.sql) hsh gk
+    (hI : I.sel S) (gk : Good I σ S.skipTo) : Good I σ S :=
+  Good.sel S ok (by rw [ok.engine]; exact gk.sql) hsh hI gk
 
-/-- The skip target of a Good Select has the shape `to_payload` compiles. -/
-theorem Good.shape {σ : Leaves} {S : Rel} (h : Good σ S) (hs : S.isSelect = true) :
-    S.skipTo.compOK true = true := by
+/-- The Select invariant of a Good Select. -/
+theorem Good.selI {σ : Leaves} {S : Rel} (h : Good I σ S) (hs : S.isSelect = true) : I.sel S := by
   cases h with
-  | atom r ha _ _ _ => cases S <;> simp_all [Rel.isAtom, Rel.isSelect]
+  | atom r ha _ _ _ _ => cases S <;> simp_all [Rel.isAtom, Rel.isSelect]
   | unary => simp [Rel.isSelect] at hs
   | chain => simp [Rel.isSelect] at hs
   | join => simp [Rel.isSelect] at hs
-  | sel S _ _ hsh _ => exact hsh
+  | sel S _ _ _ hI _ => exact hI
+
+/-- The atom invariant of a Good atom. -/
+theorem Good.atomI {σ : Leaves} {r : Rel} (h : Good I σ r) (ha : r.isAtom = true) : I.atom r := by
+  cases h with
+  | atom r _ _ _ _ hI => exact hI
+  | unary => simp [Rel.isAtom] at ha
+  | chain => simp [Rel.isAtom] at ha
+  | join => simp [Rel.isAtom] at ha
+  | sel _ hS _ _ _ _ => have := hS.isSel; cases r <;> simp_all [Rel.isAtom, Rel.isSelect]
+
+/-- Selects made by `apply_skip` are fresh objects. -/
+theorem applySkip_oid (k : Rel) (sl : Slots) (r : Rel) (h : applySkip k sl = .ok r) : r.oid = 0 := by
+  rw [applySkip_eq_spec] at h
+  simp only [applySkipSpec, bind, Except.bind] at h
+  repeat' split at h
+  all_goals first | (cases h; done) | (injection h with h; subst h; rfl)
+
+/-- The skip target of a Good Select has the shape `to_payload` compiles. -/
+theorem Good.shape {σ : Leaves} {S : Rel} (h : Good I σ S) (hs : S.isSelect = true) :
+    S.skipTo.compOK true = true := by
+  cases h with
+  | atom r ha _ _ _ _ => cases S <;> simp_all [Rel.isAtom, Rel.isSelect]
+  | unary => simp [Rel.isSelect] at hs
+  | chain => simp [Rel.isSelect] at hs
+  | join => simp [Rel.isSelect] at hs
+  | sel S _ _ hsh _ _ => exact hsh
 
 /-! ### shapes -/
 
@@ -65,7 +93,7 @@ theorem compOK_select (b : Bool) (S : Rel) (hs : S.isSelect = true) : S.compOK b
   cases b <;> rfl
 
 /-- A Good Select has the compilable shape (as a skip target, a join operand, a UNION branch). -/
-theorem Good.compOK {σ : Leaves} {S : Rel} (h : Good σ S) (hs : S.isSelect = true) (b : Bool) :
+theorem Good.compOK {σ : Leaves} {S : Rel} (h : Good I σ S) (hs : S.isSelect = true) (b : Bool) :
     S.compOK b = true := by
   rw [compOK_select b S hs]; exact h.shape hs
 
@@ -97,8 +125,8 @@ theorem compOK_atom (t : Rel) (ha : t.isAtom = true) (b : Bool) : t.compOK b = t
   cases t <;> simp [Rel.isAtom] at ha <;> cases b <;> rfl
 
 /-- `_finish_apply` keeps trees Good. -/
-theorem finishApply_good (σ : Leaves) : (t : Rel) → (op : UOp) → (res : Res) → Good σ t →
-    op.wfOn t.columns = true → op.finishApply t = .ok res → Good σ (res.get t)
+theorem finishApply_good (σ : Leaves) : (t : Rel) → (op : UOp) → (res : Res) → Good I σ t →
+    op.wfOn t.columns = true → op.finishApply t = .ok res → Good I σ (res.get t)
   | .unary up t' c, op, res, gt, hop, h => by
     obtain ⟨gt', hwf⟩ := gt.unaryInv
     unfold UOp.finishApply at h
@@ -140,15 +168,17 @@ end DafRel
 
 namespace DafRel
 
-theorem Good.joinInv {σ : Leaves} {j : JoinOp} {l r : Rel} {c : Cols} (h : Good σ (.binary (.join j) l r c)) :
-    Good σ l ∧ Good σ r ∧ (Rel.binary (.join j) l r c).WF ∧
+variable {I : NodeInv}
+
+theorem Good.joinInv {σ : Leaves} {j : JoinOp} {l r : Rel} {c : Cols} (h : Good I σ (.binary (.join j) l r c)) :
+    Good I σ l ∧ Good I σ r ∧ (Rel.binary (.join j) l r c).WF ∧
       j.pred.columnsRequired.subset (l.columns.union r.columns) = true := by
   cases h with
-  | atom r ha _ _ _ => simp [Rel.isAtom] at ha
+  | atom r ha _ _ _ _ => simp [Rel.isAtom] at ha
   | join _ _ _ _ g1 g2 w hp _ => exact ⟨g1, g2, w, hp⟩
-  | sel S hS _ _ _ => have := hS.isSel; simp [Rel.isSelect] at this
+  | sel S hS _ _ _ _ => have := hS.isSel; simp [Rel.isSelect] at this
 
-theorem Good.rows {σ : Leaves} {t : Rel} (h : Good σ t) : RowsHaveCols (sem σ t) t.columns :=
+theorem Good.rows {σ : Leaves} {t : Rel} (h : Good I σ t) : RowsHaveCols (sem σ t) t.columns :=
   (metadata_truthful σ t h.wf h.truthful).keys
 
 /-- Applying a Calculation or Selection (with all the merging `_finish_apply` does) keeps the shape. -/
